@@ -42,7 +42,7 @@ def handle(task):
         # schedule diversity at no extra cost: the reversed presentation also
         # runs under the reversed hash-rank order of created objects
         pi = task.get("pi") or ("rev" if pname == "reversed" else None)
-        res = impl_pv.run_pipeline(pv, "x", pi)
+        res = impl_pv.run_pipeline(pv, task.get("puml", "x"), pi)
         run = {"pres": pname, "status": res["status"], "exc": res.get("exc"),
                "text": res.get("text"), "problems": []}
         if res["status"] != "ok":
@@ -51,7 +51,8 @@ def handle(task):
             continue
         text = res["text"]
         if mode == "c05":
-            run["problems"] += c05_oracle(text, types)
+            run["problems"] += c05_oracle(text, types,
+                                          task.get("puml", "x"))
             runs.append(run)
             continue
         ast, err = pvcommon.parse_output(text)
@@ -129,13 +130,13 @@ def job_str(job):
     return " ".join(f"{i}:{t}<{','.join(map(str, ps))}" for i, t, ps in job)
 
 
-def c05_oracle(text, types):
+def c05_oracle(text, types, puml="x"):
     problems = []
     try:
         ast, info = dsl.strict_parse(text)
     except dsl.Bad as e:
         return [["malformed", str(e)]]
-    if info["name"] != "x":
+    if info["name"] != puml:
         problems.append(["name", info["name"]])
     names = set(info["events"])
     if names != set(types):
@@ -227,12 +228,15 @@ def collect_generic(pid, tier, tasks, results, bounds, rule, level,
                     "key": input_key([t["defn"], kind_of(p)] +
                                      (["names"] if t.get("names") else [])),
                     "what": f"{t.get('name', 'F')} {dsl.show(defn)} "
-                            f"[{run['pres']}] {kind_of(p)}: "
+                            f"[{run['pres']}"
+                            f"{'/' + t['names_map'] if t.get('names_map') else ''}"
+                            f"] {kind_of(p)}: "
                             f"{str(p[1:])[:160]}",
                     "input": {"name": t.get("name"), "defn": t["defn"],
                               "k": t.get("k", 2), "pres": [run["pres"]],
                               "mode": t["mode"], "pi": t.get("pi"),
                               "names": t.get("names"),
+                              "puml": t.get("puml", "x"),
                               "seed": t.get("seed", 0)},
                     "observed": {"problem": p, "text": run.get("text")}})
             if len(samples) < 4 and len(tags) >= 3 and not probs:
@@ -290,7 +294,7 @@ def replay_generic(rec):
         return bool(r["bad"]), repr([b["problem"] for b in r["bad"]])[:300]
     r = handle({"defn": i["defn"], "k": i.get("k", 2), "pres": i["pres"],
                 "mode": i["mode"], "pi": i.get("pi"),
-                "names": i.get("names")})
+                "names": i.get("names"), "puml": i.get("puml", "x")})
     want = rec["observed"]["problem"][0] if isinstance(rec["observed"], dict) \
         else None
     probs = [p for run in r["runs"] for p in run["problems"]]
